@@ -9,6 +9,7 @@ import (
 	"sort"
 	"strings"
 	"sync"
+	"sync/atomic"
 
 	"github.com/blugelabs/bluge/index"
 	segment "github.com/blugelabs/bluge_segment_api"
@@ -30,12 +31,15 @@ type DirOp struct {
 	Group  int    `json:"group,omitempty"`
 	Size   int    `json:"size"`
 	// persist only
-	Data        []byte `json:"-"` // file content after the operation (nil: absent)
-	Prev        []byte `json:"-"` // file content before the operation
-	PrevExisted bool   `json:"prev_existed,omitempty"`
-	Written     int    `json:"written,omitempty"` // bytes the item writer produced
-	Writes      int    `json:"writes,omitempty"`
+	Data        []byte                   `json:"-"` // file content after the operation (nil: absent)
+	Prev        []byte                   `json:"-"` // file content before the operation
+	PrevExisted bool                     `json:"prev_existed,omitempty"`
+	Written     int                      `json:"written,omitempty"` // bytes the item writer produced
+	Writes      int                      `json:"writes,omitempty"`
 	SnapInfo    []index.VerifSegmentInfo `json:"-"` // snapshot persists: what was handed to the encoder
+	// persist / remove issued through a directory object that had already
+	// released its lock
+	AfterUnlock bool `json:"after_unlock,omitempty"`
 }
 
 func fileName(kind string, id uint64) string { return fmt.Sprintf("%012x", id) + kind }
@@ -172,6 +176,10 @@ type RecDir struct {
 	t     *DirTrace
 	inner index.Directory
 	ro    bool
+	// lockState: 0 never locked, 1 holds the lock, 2 released it. A directory
+	// object that mutates the directory in state 2 belongs to a writer that
+	// gave the lock away while its loops were still at work.
+	lockState atomic.Int32
 }
 
 func (t *DirTrace) Wrap(inner index.Directory) *RecDir { return &RecDir{t: t, inner: inner} }
@@ -323,7 +331,7 @@ func (r *recWriterTo) WriteTo(w io.Writer, closeCh chan struct{}) (int64, error)
 
 func (d *RecDir) Persist(kind string, id uint64, w index.WriterTo, closeCh chan struct{}) error {
 	d.t.sim.Gate("dir.persist", fileName(kind, id))
-	op := &DirOp{Op: "persist", Kind: kind, ID: id}
+	op := &DirOp{Op: "persist", Kind: kind, ID: id, AfterUnlock: d.lockState.Load() == 2}
 	if d.t.ReadBack {
 		op.Prev, op.PrevExisted = d.t.readFile(kind, id)
 	}
@@ -380,7 +388,7 @@ func (d *RecDir) Persist(kind string, id uint64, w index.WriterTo, closeCh chan 
 }
 
 func (d *RecDir) Remove(kind string, id uint64) error {
-	op := &DirOp{Op: "remove", Kind: kind, ID: id}
+	op := &DirOp{Op: "remove", Kind: kind, ID: id, AfterUnlock: d.lockState.Load() == 2}
 	actor := d.t.sim.ActorName()
 	d.t.mu.Lock()
 	op.Group = d.t.groupOf[actor]
@@ -422,6 +430,9 @@ func (d *RecDir) Lock() error {
 		return ErrInjected
 	}
 	err := d.inner.Lock()
+	if err == nil {
+		d.lockState.Store(1)
+	}
 	op.Err = errStr(err)
 	d.t.record(op)
 	return err
@@ -430,6 +441,9 @@ func (d *RecDir) Lock() error {
 func (d *RecDir) Unlock() error {
 	d.t.sim.Gate("dir.unlock", "")
 	err := d.inner.Unlock()
+	if d.lockState.Load() == 1 {
+		d.lockState.Store(2)
+	}
 	d.t.record(&DirOp{Op: "unlock", Err: errStr(err)})
 	return err
 }
